@@ -392,6 +392,9 @@ inline int drive(const std::string &prop, const Options &opt, const CaseFn &fn, 
         return 0;
     }
     bool failed_once = false;
+    double fail_t0 = 0.0;
+    uint64_t shrink_budget = 1500;
+    if (const char *sb = getenv("VERIF_SHRINK_BUDGET")) shrink_budget = strtoull(sb, nullptr, 10);
     std::string curp = opt.work + "/cur.tape";
     std::string failp = opt.work + "/fail.tape";
     bool ok = rc::check(prop, [&]() {
@@ -403,8 +406,12 @@ inline int drive(const std::string &prop, const Options &opt, const CaseFn &fn, 
         ctx.case_no = st.evaluations;
         if (failed_once) st.shrink_evaluations++; else st.evaluations++;
         st.recording = !failed_once;
+        // bound the cost of shrinking: past the budget every candidate "passes", so rapidcheck stops
+        // at the smallest failing tape found so far (which fail.tape already holds)
+        if (failed_once && (st.shrink_evaluations > shrink_budget || now_s() - fail_t0 > 150.0)) return;
         std::string fail = run_case(fn, words, ctx, !failed_once);
         if (!fail.empty()) {
+            if (!failed_once) fail_t0 = now_s();
             failed_once = true;
             st.fail_msg = fail;
             write_tape(failp, words, "FAIL: " + fail + "\nTRACE: " + ctx.trace.str());
